@@ -10,9 +10,9 @@ if "--tier" in args:
 patch, checks = os.path.abspath(args[0]), args[1:]
 # scratch copies (a worktree of /repo and a copy of /verif with its own build output) can be named through the
 # environment, so that a long regression pass does not occupy /repo: SEED_REPO, SEED_VERIF
-REPO = os.environ.get("SEED_REPO", REPO)
+REPO = os.environ.get("SEED_REPO", "/repo")
 VERIF = os.environ.get("SEED_VERIF", "/verif")
-ENV = dict(os.environ, UCG_REPO=REPO) if REPO != REPO else dict(os.environ)
+ENV = dict(os.environ, UCG_REPO=REPO) if REPO != "/repo" else dict(os.environ)
 assert subprocess.run(["git", "-C", REPO, "status", "--porcelain"], capture_output=True, text=True).stdout.strip() == "", "the repository copy is not clean"
 subprocess.check_call(["git", "-C", REPO, "apply", patch])
 try:
